@@ -47,4 +47,4 @@ func (s *Service) VerifKeygen() *keygen.Service { return s.keygen }
 func (s *Service) VerifConnections() int64 { return atomic.LoadInt64(&s.connections) }
 
 // VerifCounters returns the per-connection subscription counters.
-func (c *Conn) VerifCounters() []message.Counter { return c.subs.VerifDump() }
+func (c *Conn) VerifCounters() []message.Counter { return c.subs.VerifOrdered() }
